@@ -54,12 +54,15 @@ struct Written {
 
 /// the stream writer takes the same Options as the file writers: rotate through presets and correlation settings
 fn stream_options(id: u64) -> Options {
-    match id % 5 {
+    // every combination of mid-side on / off with exhaustive / quick correlation occurs, next to the presets
+    match id % 7 {
         0 => Options::default(),
         1 => Options::fast(),
         2 => Options::best(),
         3 => Options::default().fast_channel_correlation(true).mid_side(false),
-        _ => Options::default().fast_channel_correlation(true).mid_side(true),
+        4 => Options::default().fast_channel_correlation(true).mid_side(true),
+        5 => Options::default().fast_channel_correlation(false).mid_side(false),
+        _ => Options::default().fast_channel_correlation(false).mid_side(true).max_lpc_order(None::<u8>).unwrap(),
     }
 }
 
@@ -98,7 +101,7 @@ pub fn run(job: &Value, t: &mut Trace) -> usize {
         }
         // the same frames through ONE writer, with refused calls in between (parameters no frame header can carry): what reaches the
         // output must be exactly the accepted frames, numbered consecutively from 0 (C02 for raw frame streams)
-        if a["log_frames"].as_bool().unwrap_or(false) {
+        if a["sequence"].as_bool().unwrap_or(true) {
             let mut out = vec![];
             let mut refused = 0i64;
             let mut accepted: Vec<Value> = vec![];
